@@ -4,6 +4,7 @@ go 1.23
 
 require (
 	github.com/kelindar/column v0.0.0
+	github.com/klauspost/compress v1.16.6
 	pgregory.net/rapid v1.3.0
 )
 
@@ -13,7 +14,6 @@ require (
 	github.com/kelindar/iostream v1.3.0 // indirect
 	github.com/kelindar/simd v1.1.2 // indirect
 	github.com/kelindar/smutex v1.0.0 // indirect
-	github.com/klauspost/compress v1.16.6 // indirect
 	github.com/klauspost/cpuid/v2 v2.2.5 // indirect
 	github.com/tidwall/btree v1.6.0 // indirect
 	github.com/zeebo/xxh3 v1.0.2 // indirect
